@@ -2,14 +2,19 @@ from common import T_COMMON
 from cfg_C04 import T_PLY
 
 CFG = dict(
-    theorems=["ply_offset_is_prefix_sum", "ply_column_is_header_index", "ply_record_field_any_layout",
-              "ply_unclaimed_scalar_reads_own_field", "ply_header_line_lf_crlf", "fan_quad", "ply_reader_quad_fan",
-              "ply_reader_triangle", "ply_mixed_type_group_not_claimed",
-              "ply_ascii_int_through_float32", "ply_ascii_uchar_scalar_not_normalised"],
+    theorems=["ply_offset_is_prefix_sum", "ply_column_is_header_index", "ply_spec_field_any_layout", "ply_spec_field_value",
+              "ply_spec_vertex_block", "ply_unclaimed_property_gets_reader", "ply_unclaimed_reader_located",
+              "ply_header_line_lf_crlf", "ply_reader_quad_fan", "ply_reader_triangle", "ply_reader_face_other",
+              "ply_mixed_type_group_not_claimed", "ply_ascii_int_through_float32", "ply_ascii_int_through_float32_concrete",
+              "ply_ascii_uchar_scalar_not_normalised", "ply_ascii_uchar_scalar_not_normalised_concrete"],
+    # proved, but `rfl` on the specification-side definition: not counted (ignored by the check)
+    helper_theorems=["fan_quad"],
     streams=[dict(name="c08", n=dict(quick=400, thorough=5000))],
     trusted=T_PLY + ["the independent Go reference encoder in c08.go produces the bytes fed to ply.ReadMesh; c08.encode checks on every case that the Lean refEncode yields the same bytes"],
-    residue=["ply_reads_spec_full (readMesh (refEncode f) = meaning f for every SpecFile) is a def … : Prop, NOT a theorem; on every generated SpecFile the oracle c08.holds.meaning checks that ply.ReadMesh's result equals `meaning f` and c08.read that the model reader agrees with ply.ReadMesh",
-             "proved for all inputs: location arithmetic of scalar readers for any property order (binary offsets = prefix sums of sizes, ASCII column = header index), decoding at that location, LF/CRLF line reading, quad fan; the 2-/3-/4-vector claim scan, claimed/unclaimed partition, header keyword parsing and list readers are modelled and corresponded, not proved",
+    residue=["ply_reads_spec_full (readMesh (refEncode f) = meaning f for every guarded SpecFile) is a def … : Prop, NOT a theorem, and no partial end-to-end version (header text → mesh) is proved; on every generated SpecFile the oracle c08.holds.meaning checks that ply.ReadMesh's result equals `meaning f` and c08.read that the model reader agrees with ply.ReadMesh",
+             "proved for all inputs, over the REFERENCE encoding: field decoding at the header-computed offset for any property order/type mix (ply_spec_field_any_layout), value = Datum.val for representable data, the whole binary vertex block under the vertex loop for any list of located readers (ply_spec_vertex_block), an unrecognised property gets its own located scalar reader through addUnclaimed; scalar-reader location arithmetic (binary prefix sums, ASCII column); LF/CRLF line reading; quad/triangle emission with per-corner UVs",
+             "NOT proved (modelled and corresponded only): that the 2-/3-/4-vector claim scan buildVec yields a Located reader (the S2 sensitivity trial lives there) — ply_spec_vertex_block takes Located as a hypothesis; header keyword parsing from bytes (aliases, comments, element/property lines); the face loop over list properties; UpdateMesh/unweld assembly and its equality with `meaning`; the ASCII encoding",
+             "all theorems hold for an ARBITRARY `Coding α` (the bundle has no laws): they speak about decode∘encode of that coding (datumRead); `Datum.Exact` / `ply_spec_field_value` is where representability enters",
              "guards of the grammar the generators stay inside (each violated by the unchanged tree, see witnesses): one scalar type inside a recognised group; ASCII values exactly representable in float32; no 8-bit unrecognised scalar in ASCII; at least one face when a face element is declared; no uchar s/t pair (vector2.DivByConstant multiplies by 1/255: 1 ulp off b/255)",
              "SpecFile fixes the element order vertex, face and has no other elements (the reader ignores header element order and reads vertex data first); face element holds list properties only",
              "non-ASCII white space (U+0085, U+00A0 …) in header lines, tokens longer than bufio.Scanner's 64 KiB limit: not modelled"],
